@@ -1,14 +1,15 @@
 SPECIFICATION Spec
 CONSTANTS
-  Family = "read"
+  Family = "compact"
   NTs = 4
   NFiles = 2
   NKeys = 1
   MaxBlocks = 2
-  TombMode = "one"
+  TombMode = "none"
   KeyMode = "full"
   MaxLen = 0
   PPBs <- PPBSmall
-  Picks <- NoPicks
-INVARIANTS LWWIsFold ReadLemmas
+  NPicks = 0
+  PickAt <- NoPick
+INVARIANTS LWWIsFold CompactLemmas
 CHECK_DEADLOCK FALSE
